@@ -2,19 +2,17 @@ SPECIFICATION Spec
 CONSTANTS
   Known <- KnownSet
   Modules = {"gvmod_ok"}
-  Templates <- Tpl
+  Templates <- TplLocs
   FileNames <- Files3
-  MaxPerFile <- Max3T
-  SkipForms <- Skips
-  RegLogs <- RegLogs1
+  MaxPerFile <- MaxLocs
+  SkipForms <- SkipFalse
+  RegLogs <- RegLogsAll
   EntryForms <- Entries
   EntryBinding <- EntryB
   Readers <- Rdrs
-  PresentChoices <- Presents
-
-
-
-
-
+  PresentChoices <- PresentsLocs
 CONSTRAINT ExportAll
+INVARIANT C14_C16_Flatten
+INVARIANT C14_Resolve
+INVARIANT C14_Entry
 CHECK_DEADLOCK FALSE
